@@ -830,17 +830,21 @@ static void overwrite_item(cJSON * const root, const cJSON replacement)
         return;
     }
 
-    if (root->string != NULL)
+    /* release what the item owns: not a constant key, not what a reference item borrows */
+    if ((root->string != NULL) && !(root->type & cJSON_StringIsConst))
     {
         cJSON_free(root->string);
     }
-    if (root->valuestring != NULL)
+    if (!(root->type & cJSON_IsReference))
     {
-        cJSON_free(root->valuestring);
-    }
-    if (root->child != NULL)
-    {
-        cJSON_Delete(root->child);
+        if (root->valuestring != NULL)
+        {
+            cJSON_free(root->valuestring);
+        }
+        if (root->child != NULL)
+        {
+            cJSON_Delete(root->child);
+        }
     }
 
     memcpy(root, &replacement, sizeof(cJSON));
